@@ -82,7 +82,11 @@ pub fn apps() -> Vec<AppDef> {
     out.push(AppDef {
         name: "grid_search",
         spec: s,
-        bases: vec![json!({"origin_vertex": 0, "destination_vertex": 4, "grid_search": {"weight_factor": [0.0, 1.0], "tag2": [{"label": "a"}]}})],
+        // the first base expands to six searches - more than any batch here has entries - the second to two
+        bases: vec![
+            json!({"origin_vertex": 0, "destination_vertex": 4, "grid_search": {"weight_factor": [0.0, 0.5, 1.0], "tag2": [{"label": "a"}, {"label": "b"}]}}),
+            json!({"origin_vertex": 0, "destination_vertex": 4, "grid_search": {"weight_factor": [0.0, 1.0], "tag2": [{"label": "a"}]}}),
+        ],
         fields: vec!["grid_search", "grid_search.weight_factor", "grid_search.tag2", "origin_vertex"],
     });
     // A2 vertex rtree with tolerance
